@@ -162,10 +162,17 @@ def run_history(desc_n, n_att, history, res, count=True):
             elif kind == 'rmnode':
                 n = nodes[op[1] % desc_n]
                 if any(n is x for x in g.nodes) and len(g.nodes) > 1:
-                    g.remove_node(n)
+                    if op[1] % 3 == 0 and n.type in ('or', 'and'):
+                        # the node leaves through the analyzer: it is labelled non-viable and the graph is pruned
+                        from maltoolbox.attackgraph.analyzers.apriori import prune_unviable_and_unnecessary_nodes
+                        n.is_viable = False
+                        prune_unviable_and_unnecessary_nodes(g)
+                        cnt('op:pruned-while-compromised' if n.compromised_by or not any(n is x for x in g.nodes) else 'op:prune')
+                    else:
+                        g.remove_node(n)
         except Exception as exc:
             return ('compromise:%s-raised-%s' % (kind, type(exc).__name__), '%s raised %r' % (where, exc))
-        f = agraph.check_compromise_symmetry(g, ever, removed)
+        f = agraph.check_compromise_symmetry(g, ever, removed, ever_nodes=nodes)
         cnt('steps-checked')
         if f:
             return (f[0], '%s: %s' % (where, f[1]))
